@@ -15,19 +15,27 @@
 #include <sys/uio.h>
 #include <unistd.h>
 
+#include <signal.h>
 static long counter = 0;
 static long crash_at = -1;
+static long signal_at = 0;   /* C23: deliver SIGNAL_NO (default SIGTERM) to ourselves right before the n-th mutation */
+static int signal_no = SIGTERM;
 
 static void init(void) {
     if (crash_at >= 0) return;
     const char *s = getenv("CRASH_AT");
     crash_at = s ? atol(s) : 0;
+    s = getenv("SIGNAL_AT");
+    signal_at = s ? atol(s) : 0;
+    s = getenv("SIGNAL_NO");
+    if (s) signal_no = atoi(s);
 }
 
 static void hit(void) {
     init();
     counter++;
     if (crash_at > 0 && counter == crash_at) _exit(99);
+    if (signal_at > 0 && counter == signal_at) kill(getpid(), signal_no);
 }
 
 __attribute__((destructor)) static void fini(void) {
@@ -132,6 +140,14 @@ int linkat(int a, const char *b, int c, const char *d, int f) {
     if (!real) real = dlsym(RTLD_NEXT, "linkat");
     hit();
     return real(a, b, c, d, f);
+}
+/* closing a descriptor is a point of interest for signal delivery (C23) only */
+int close(int fd) {
+    static int (*real)(int) = NULL;
+    if (!real) real = dlsym(RTLD_NEXT, "close");
+    init();
+    if (fd > 2 && getenv("SIGNAL_COUNT_CLOSE")) hit();
+    return real(fd);
 }
 ssize_t write(int fd, const void *buf, size_t n) {
     static ssize_t (*real)(int, const void *, size_t) = NULL;
